@@ -970,3 +970,16 @@ def r4_12(run):
 
 
 RULES = [("R4.1", r4_1), ("R4.2", r4_2), ("R4.3", r4_3), ("R4.4", r4_4), ("R4.5", r4_5), ("R4.7", r4_7), ("R4.8", r4_8), ("R4.9", r4_9), ("R4.10", r4_10), ("R4.11", r4_11), ("R4.12", r4_12)]
+
+
+def r4_13(run):
+    """the supplied part is calculated on the reduced pit, and a component finds its rows there through the reduced window table:
+    a row window is read from the window table of the array it is applied to (full pit / from_to, active pit / from_to_active_*,
+    hook parameters / the lookup of the same call) -- shared with C03 R3.7.  With the full-table window on the reduced pit the rows
+    are those of another element as soon as any branch ahead in the pit is not calculated: the result of the supplied part then
+    depends on what is out of service elsewhere."""
+    from .c03 import r3_7
+    r3_7(run)
+
+
+RULES.append(("R4.13", r4_13))
